@@ -34,9 +34,24 @@ MergeViewOK(e) ==
   (Len(e.order) > 1 /\ \A i \in 1..Len(e.order) : Known(e.order[i])) =>
     \A k \in Keys : e.vals[k] \in {ValsOf(e.order[i])[k] : i \in 1..Len(e.order)}
 
+(* second known shape: with three or more heads, a segment that is in the   *)
+(* stacks of two of the merged-in heads (but not of the first head) is       *)
+(* copied once per head; the second copy overwrites newer entries taken     *)
+(* from the head merged in between                                          *)
+SharedRecopied(e, k, v) ==
+  /\ Len(e.order) >= 3 /\ Len(e.chains) = Len(e.order)
+  /\ \E i, j \in 2..Len(e.chains) :
+        /\ i < j
+        /\ \E a \in 1..Len(e.chains[i]), b \in 1..Len(e.chains[j]) :
+              /\ e.chains[i][a][1] = e.chains[j][b][1]
+              /\ e.chains[i][a][1] \notin ChainNames(e.chains[1])
+              /\ e.chains[i][a][3][k] = v
 SqAfter(e) == IF Len(e.order) > 1 THEN sqentries \cup Folded(e.first_chain, e.chain) ELSE sqentries
-RegressedKnown(e) ==      \* a LaterWins failure, every regressed key has the known shape
+RegressedKnown(e) ==      \* a LaterWins failure, every regressed key has the (first) known shape
   \A k \in Keys : LaterWinsIn(saved, e.vals, k) \/ SquashHidesAncestry(SqAfter(e), k, e.vals[k])
+RegressedKnown2(e) ==     \* ... or the second one
+  \A k \in Keys : \/ LaterWinsIn(saved, e.vals, k) \/ SquashHidesAncestry(SqAfter(e), k, e.vals[k])
+                  \/ SharedRecopied(e, k, e.vals[k])
 
 GetHeadVerdict(e) ==
   IF Len(e.heads) = 0 THEN "HeadsEmptyAfterGetHead"
@@ -45,7 +60,8 @@ GetHeadVerdict(e) ==
   ELSE IF ~MergeViewOK(e) THEN "MergeView"
   ELSE IF ~SameName(e) THEN "SameNameSameLookups"
   ELSE IF \E k \in Keys : ~LaterWinsIn(saved, e.vals, k)
-       THEN (IF RegressedKnown(e) THEN "LaterWins:squash-hides-ancestry" ELSE "LaterWins")
+       THEN (IF RegressedKnown(e) THEN "LaterWins:squash-hides-ancestry"
+             ELSE IF RegressedKnown2(e) THEN "LaterWins:shared-ancestor-recopied" ELSE "LaterWins")
   ELSE "ok"
 
 Verdict(e) ==
